@@ -458,6 +458,12 @@ impl AnyStream {
             AnyStream::Tcp(s) => s.set_read_timeout(Some(d)),
         };
     }
+    pub fn set_write_timeout(&self, d: Duration) {
+        let _ = match self {
+            AnyStream::Unix(s) => s.set_write_timeout(Some(d)),
+            AnyStream::Tcp(s) => s.set_write_timeout(Some(d)),
+        };
+    }
     pub fn barrier(&self) {
         match self {
             AnyStream::Unix(s) => {
@@ -503,6 +509,8 @@ pub fn run_socket(address: &str, log: &SharedLog, chunks: &[Vec<u8>], sentinel: 
         }
     };
     s.set_read_timeout(HANG_TIMEOUT);
+    // a server that stopped reading (all its workers gone) must not block the driver forever
+    s.set_write_timeout(HANG_TIMEOUT);
     let mut rd = s.try_clone().unwrap();
     let (tx, rx) = mpsc::channel::<&'static str>();
     let stok = sentinel_tok.to_string();
@@ -541,12 +549,14 @@ pub fn run_socket(address: &str, log: &SharedLog, chunks: &[Vec<u8>], sentinel: 
     });
     let mut w = s.try_clone().unwrap();
     let mut write_failed = false;
+    let mut write_stalled = false;
     for c in chunks {
         if c.is_empty() {
             continue;
         }
-        if w.write_all(c).is_err() {
+        if let Err(e) = w.write_all(c) {
             write_failed = true;
+            write_stalled = matches!(e.kind(), std::io::ErrorKind::WouldBlock | std::io::ErrorKind::TimedOut);
             break;
         }
         s.barrier();
@@ -561,7 +571,11 @@ pub fn run_socket(address: &str, log: &SharedLog, chunks: &[Vec<u8>], sentinel: 
     s.shutdown_write();
     let (all, status) = reader.join().unwrap();
     obs.out = all;
+    if write_stalled {
+        obs.note = format!("the server stopped reading: a write did not complete within {:?}", HANG_TIMEOUT);
+    }
     obs.end = match (sentinel.is_some(), first, status) {
+        _ if write_stalled => "hang".into(),
         (true, "sentinel", _) => "open".into(),
         (true, "eof", _) | (true, "reset", _) => "closed".into(),
         (true, _, _) => "hang".into(),
